@@ -188,7 +188,9 @@ def library_computer_cfg(kind, rate, r):
                 "use_log": True, "use_power": r.random() < 0.5, "kaldi_shift": r.random() < 0.5,
                 "include_energy": r.random() < 0.3}
     if kind == "gabor":
-        return {"name": "stft", "bank": bank_g, "frame_length_ms": 20, "frame_shift_ms": 10,
+        # frame lengths of both parities (ms chosen so that int(0.001 * ms * rate) is odd / even at 8 kHz:
+        # 20 -> 160, 20.125 -> 161, 25.125 -> 201), padded and unpadded DFT: the torch tool uses the PyTorch port
+        return {"name": "stft", "bank": bank_g, "frame_length_ms": r.choice([20, 20.125, 25.125]), "frame_shift_ms": 10,
                 "frame_style": r.choice(["centered", "causal"]), "use_log": True,
                 "pad_to_nearest_power_of_two": r.random() < 0.5}
     return {"name": "si", "bank": bank_g, "frame_shift_ms": 10, "use_log": True,
